@@ -219,7 +219,7 @@ def r_data(ctx: Ctx, model):
 
             def thunk(I):
                 seen.clear()
-                new = Obj(cls=mi, label="new", attrs={})
+                new = Obj(cls=mi, label="new", attrs={"_temperature": Num.atom("T"), "temperature_unit": "K"})   # what the (stubbed) base constructor sets
                 kw = {"model": "Stub", "branch": branch, "material": "m", "adsorbate": "a", "temperature": Num.atom("T")}
                 if route == "arrays":
                     kw.update({"pressure": Arr(Num.atom("P"), kind="array"), "loading": Arr(Num.atom("L"), kind="array")})
